@@ -30,6 +30,12 @@ for p, xs in groups.items():
     out.append("")
 seeded = sorted(glob.glob(os.path.join(V, "seeded", "*", "meta.json")))
 out.append("### 10.6 Seeded changes (written by fresh sub-agents that saw only the property text) and the checks that catch them\n")
+out.append("Protocol: a fresh sub-agent gets only the text of one property and its own scratch git worktree of `/repo` under `/tmp` (nothing "
+           "from `/verif`) and is asked for one small realistic change that breaks the property, compiles, keeps the repository's tests green and "
+           "needs something specific to manifest. Each change was confirmed here (test suite re-run in the worktree), stored as "
+           "`seeded/<id>/{patch.diff, demonstration.md, meta.json}`, applied to `/repo` with `git apply`, checked with `driver/seeded.py` and undone with "
+           "`git checkout -- .`; worktrees are removed afterwards. Where a change was missed the check was strengthened (never the change weakened) and "
+           "re-run; the note column says what was added.\n")
 if seeded:
     out.append("| id | property | change | needs | caught by (quick tier) |\n|---|---|---|---|---|")
     for f in seeded:
